@@ -338,6 +338,10 @@ JudgeTransfer(tr, T, ev) ==
        Cardinality(PairStarts(body)) = SumSeq([i \in 1..Len(x) |-> NSteps(x[i].v, T.wlmax)])),
     Cl("C07.breaks", F.records /\ valid /\ ok /\ T.autosplit /\ SplitCols(x, TransferSide(T, a), T.wlmax) # {},
        BreaksOK(T, a, x, body)),
+    \* an explicit choice of the side is respected: where the groups end shows in the break records of split volumes
+    Cl("C18.breaks", F.records /\ valid /\ ok /\ T.autosplit /\ a.pby \in {"source", "destination"}
+                     /\ SplitCols(x, TransferSide(T, a), T.wlmax) # {},
+       BreaksOK(T, a, x, body)),
     Cl("C09.kwargs", F.records /\ valid /\ ok,
        LET kv == KwValues(a.kw)  pips == PipRecs(ev.recs) IN
        \A i \in 1..Len(pips) : /\ pips[i].lc = kv.lc /\ pips[i].tip = kv.tip /\ pips[i].rackid = kv.rackid
@@ -494,6 +498,10 @@ RArgsValid(T, a) ==
   /\ \A i \in 1..Len(a.excl) : a.excl[i] >= a.d1.v /\ a.excl[i] <= a.d2.v   \* ... inside the destination range
 PosArg(n) == n.cls = "int" /\ n.v >= 1
 VolCents(v) == IF v.m >= 0 THEN (v.m + 5) \div 10 ELSE v.c
+\* the volume as it was given, in thousandths (what fits an aspiration is decided on the volume itself, not on its two-decimal text)
+VolMilli(v) == IF v.m >= 0 THEN v.m ELSE v.c * 10
+\* k aspirated portions of v fit max_volume (exact in thousandths where TLC's 32 bit integers allow it, in hundredths beyond)
+FitsAsp(T, k, v) == IF T.wlmaxc <= 1000000 /\ k <= 201 /\ v.m >= 0 THEN k * VolMilli(v) <= T.wlmaxc * 10 ELSE k * VolCents(v) <= T.wlmaxc
 VolArgValid(T, v) == v.cls = "num" /\ VolCents(v) >= 0 /\ VolCents(v) <= MaxRecordVolumeCents /\ VolCents(v) <= T.wlmaxc
 LastIsBreak == wl = <<>> \/ wl[Len(wl)].t = "B"
 
@@ -541,17 +549,17 @@ JudgeEmit(tr, T, ev) ==
        /\ r1.dir = (IF a.dir = "left_to_right" THEN 0 ELSE 1)
        /\ Range(r1.excl) = Range(a.excl) /\ Len(r1.excl) = Cardinality(Range(a.excl))
        /\ \A i \in 1..(Len(r1.excl) - 1) : r1.excl[i] < r1.excl[i + 1]
-       /\ (VolCents(a.vol) > 0 => (r1.md >= 1 /\ r1.md <= a.md.v /\ r1.md * VolCents(a.vol) <= T.wlmaxc
-                                   /\ (a.md.v * VolCents(a.vol) <= T.wlmaxc => r1.md = a.md.v)
-                                   /\ (a.md.v * VolCents(a.vol) > T.wlmaxc => (r1.md + 1) * VolCents(a.vol) > T.wlmaxc)))
+       /\ (VolCents(a.vol) > 0 => (r1.md >= 1 /\ r1.md <= a.md.v /\ FitsAsp(T, r1.md, a.vol)
+                                   /\ (FitsAsp(T, a.md.v, a.vol) => r1.md = a.md.v)
+                                   /\ (~FitsAsp(T, a.md.v, a.vol) => ~FitsAsp(T, r1.md + 1, a.vol))))
        /\ (VolCents(a.vol) = 0 => r1.md = a.md.v)),
     Cl("C09.r.bad", fn = "reagent_distribution" /\ ~RArgsValid(T, a)
                     /\ ~(Foreign(a.s1) \/ Foreign(a.s2) \/ Foreign(a.d1) \/ Foreign(a.d2) \/ Foreign(a.reuse) \/ Foreign(a.md)), ~ok /\ none),
     \* C06: never more multi-dispenses per aspiration than fit into max_volume, reduced only as far as needed
     Cl("C06.rmultidisp", fn = "reagent_distribution" /\ RArgsValid(T, a) /\ ok /\ n = 1 /\ VolCents(a.vol) > 0,
-       /\ r1.md >= 1 /\ r1.md <= a.md.v /\ r1.md * VolCents(a.vol) <= T.wlmaxc
-       /\ (a.md.v * VolCents(a.vol) <= T.wlmaxc => r1.md = a.md.v)
-       /\ (a.md.v * VolCents(a.vol) > T.wlmaxc => (r1.md + 1) * VolCents(a.vol) > T.wlmaxc)),
+       /\ r1.md >= 1 /\ r1.md <= a.md.v /\ FitsAsp(T, r1.md, a.vol)
+       /\ (FitsAsp(T, a.md.v, a.vol) => r1.md = a.md.v)
+       /\ (~FitsAsp(T, a.md.v, a.vol) => ~FitsAsp(T, r1.md + 1, a.vol))),
     Cl("C09.emit.one", ok /\ fn # "comment", n = 1)
   }
 
@@ -748,6 +756,8 @@ JudgeFile(tr, T, ev) ==
     \* an extension in other letter cases (".GWL"): whether it is taken is not pinned; if it is, the file that was named holds the records
     Cl("C17.othercase", ev.op = "save" /\ a.ext = "case" /\ ev.out = "ok", ev.file.exists /\ ev.file.bytes = FileBytes(lines)),
     Cl("C17.noext", ev.op = "save" /\ a.ext = "none", ev.out # "ok" /\ ~ev.file.exists),
+    \* ... also when the name without the extension was given to the constructor and the block is left
+    Cl("C17.noext", ev.op = "exit" /\ a.ext = "none" /\ a.haspath, ev.out # "ok" /\ ~ev.file.exists),
     Cl("C17.nopath", ev.op = "exit" /\ ~a.haspath, ev.out = "ok" /\ ~ev.file.exists),
     Cl("C17.enter", ev.op \in {"enter", "clear"}, ev.out = "ok" /\ ev.wlen = 0),
     Cl("C17.listedit", ev.op = "listedit", ev.out = "ok" /\ ev.wlen = Len(EditList(wl, a))),
